@@ -93,7 +93,8 @@ def m1_formula(ctx):
     # sibling 2: MoneyItem::convert_currency(self, config, left): converts `left` into self's currency
     c = ctx.facts.one(r'^compiler::money::MoneyItem::convert_currency$')
     ctx.fn(c)
-    ok = check_conversion(ctx, c, c.local_expr(0), make_leaf(r'left', r'self\.1'), 'convert_currency', 'MoneyItem::convert_currency', True, c.loc)
+    names = [re.escape(str(c.arg_names.get(i))) for i in (1, 3)]     # (self, config, the other money): slots by position, not by name
+    ok = check_conversion(ctx, c, c.local_expr(0), make_leaf(names[1], names[0] + r'\.1'), 'convert_currency', 'MoneyItem::convert_currency', True, c.loc)
     if ok < 1:
         raise AnchorLost('MoneyItem::convert_currency: no arithmetic alternative found')
 
